@@ -119,7 +119,7 @@ func New(rt *rapid.T, o Opts) *Builder {
 	}
 	b := &Builder{rt: rt, O: o, Labels: map[string]int{}, defects: o.Defects}
 	if o.Defects > 0 {
-		kinds := []string{"kind", "shape", "enum", "exotic", "missing", "unexported", "ambiguous-case", "unknown-field", "ambiguous-automap", "ambiguous-method", "overlap"}
+		kinds := []string{"kind", "shape", "enum", "exotic", "missing", "unexported", "ambiguous-case", "unknown-field", "ambiguous-automap", "ambiguous-method", "overlap", "map-promoted"}
 		if len(o.DefectKinds) > 0 {
 			kinds = o.DefectKinds
 		}
@@ -846,7 +846,7 @@ func (b *Builder) namedStruct(depth int) (*spec.T, *spec.T) {
 // declare adds a declared converter method (spec + model) for (s, t).
 func (b *Builder) declare(name string, s, t *spec.T) (*model.Method, *spec.Method) {
 	m := &model.Method{Name: name, Source: s, Target: t, Fields: map[string]*model.FieldCfg{}}
-	sm := &spec.Method{Name: name, Params: []spec.Param{{Name: "source", T: s}}, Results: []*spec.T{t}}
+	sm := &spec.Method{Name: name, Params: []spec.Param{{Name: "source", T: b.spell(s)}}, Results: []*spec.T{b.spell(t)}}
 	// context parameters at random positions
 	for _, c := range b.Ctx {
 		if b.O.DropContext && !b.ctxDropped && b.chance(35, "drop-context") {
@@ -891,7 +891,7 @@ func (b *Builder) newFunc(s, t *spec.T, withSource bool) *model.Func {
 	}
 	if withSource {
 		f.Source = s
-		fd.Params = append(fd.Params, spec.Param{Name: "source", T: s})
+		fd.Params = append(fd.Params, spec.Param{Name: "source", T: b.spell(s)})
 		args = append(args, "source")
 	}
 	for _, c := range b.Ctx {
@@ -1088,7 +1088,7 @@ func (b *Builder) fields(depth int, own *model.Method, sd *spec.TypeDecl) ([]spe
 			if b.O.Custom {
 				variants = append(variants, "mapfunc", "mapfunc", "mapfunc-nosource", "digit-siblings")
 			}
-			for _, k := range []string{"ambiguous-case", "unknown-field", "ambiguous-automap"} {
+			for _, k := range []string{"ambiguous-case", "unknown-field", "ambiguous-automap", "map-promoted"} {
 				if b.want(k) {
 					variants = append(variants, k, k, k)
 				}
@@ -1101,7 +1101,11 @@ func (b *Builder) fields(depth int, own *model.Method, sd *spec.TypeDecl) ([]spe
 			}
 		}
 		if b.O.Unexported {
-			if sd == nil && !b.O.SamePkg && b.NoUnnamedUnexported {
+			if sd == nil && !b.O.SamePkg && b.O.Custom {
+				// an unnamed struct type with unexported fields written in the converter package (as
+				// parameter or result of a custom function) is another type than the one written
+				// in the type packages: not generated
+			} else if sd == nil && !b.O.SamePkg && b.NoUnnamedUnexported {
 				// unnamed struct types with unexported fields cannot be spelled in another
 				// package (known finding F-UNNAMED-UNEXPORTED)
 				b.label("excluded:F-UNNAMED-UNEXPORTED")
@@ -1118,8 +1122,8 @@ func (b *Builder) fields(depth int, own *model.Method, sd *spec.TypeDecl) ([]spe
 		case "plain":
 			nm := name()
 			s, t := b.pairAssign(depth - 1)
-			fs = append(fs, spec.F(nm, s))
-			ft = append(ft, spec.F(nm, t))
+			fs = append(fs, spec.F(nm, b.spell(s)))
+			ft = append(ft, spec.F(nm, b.spell(t)))
 		case "unexported-source-type":
 			// exported source field of a named basic type with an unexported name (type level int):
 			// the conversion T(source.F) never spells the source type, so it is convertible
@@ -1312,6 +1316,19 @@ func (b *Builder) fields(depth int, own *model.Method, sd *spec.TypeDecl) ([]spe
 				fs = append(fs, spec.F(nm, s))
 				own.Fields[tn] = &model.FieldCfg{Source: nm}
 			}
+		case "map-promoted":
+			// map names a field that the source only has through an embedded pointer (a promoted
+			// field): a source path is made of the struct's own fields and methods
+			b.defects--
+			b.label("defect:map-promoted-field")
+			id := b.id()
+			en := fmt.Sprintf("EmbP%d", id)
+			pf := fmt.Sprintf("Prom%d", id)
+			b.A.Types = append(b.A.Types, &spec.TypeDecl{Name: en, U: spec.Struct(spec.F(pf, spec.Basic("int")))})
+			fs = append(fs, spec.Field{Name: en, T: spec.Ptr(spec.Named(b.A.Key, en)), Embedded: true})
+			tn := name()
+			ft = append(ft, spec.F(tn, spec.Basic("int")))
+			own.Fields[tn] = &model.FieldCfg{Source: pf}
 		case "ambiguous-automap":
 			b.defects--
 			b.label("defect:ambiguous-automap")
@@ -1452,6 +1469,15 @@ func (b *Builder) fields(depth int, own *model.Method, sd *spec.TypeDecl) ([]spe
 			}
 			if !b.O.SamePkg {
 				switch {
+				case b.want("unexported") && own != nil && b.O.Custom && b.coin("unexported-target-func-first"):
+					// a custom function for the field does not make it writable
+					b.defects--
+					b.label("defect:unexported-target")
+					b.label("defect:unexported-target-with-func")
+					// (fed from an exported source field, so that only the target is in the way)
+					feed := name()
+					fs = append(fs, spec.F(feed, s))
+					own.Fields[nm] = &model.FieldCfg{Source: feed, Func: b.newFunc(s, t, true)}
 				case own != nil && b.coin("unexported-how"):
 					own.Fields[nm] = &model.FieldCfg{Ignore: true}
 				case own != nil:
@@ -1460,6 +1486,11 @@ func (b *Builder) fields(depth int, own *model.Method, sd *spec.TypeDecl) ([]spe
 				case b.want("unexported"):
 					b.defects--
 					b.label("defect:unexported-target")
+					if false {
+						// a custom function for the field does not make it writable
+						b.label("defect:unexported-target-with-func")
+						own.Fields[nm] = &model.FieldCfg{Source: nm, Func: b.newFunc(s, t, true)}
+					}
 				default:
 					// no way to make it convertible: drop the target field
 					ft = ft[:len(ft)-1]
@@ -1640,6 +1671,33 @@ func (b *Builder) StructMethod(name string, depth int) *model.Method {
 	}
 	m, _ := b.declare(name, s, t)
 	return m
+}
+
+// spell returns t written with a type alias (about one named, non-generic occurrence in eight):
+// the alias is declared next to the type. Aliases are another spelling of the same type, so
+// nothing about the conversion may change.
+func (b *Builder) spell(t *spec.T) *spec.T {
+	if t == nil || t.K != spec.KNamed || t.Pkg == "" || len(t.Args) > 0 || t.Spell != "" || !b.chance(12, "alias-spelling") {
+		return t
+	}
+	d := b.Prog.Decl(t)
+	if d == nil || len(d.Params) > 0 {
+		return t
+	}
+	alias := d.Name + "Alias"
+	have := false
+	for _, a := range d.Spellings {
+		if a == alias {
+			have = true
+		}
+	}
+	if !have {
+		d.Spellings = append(d.Spellings, alias)
+	}
+	b.label("spelling:type-alias")
+	c := *t
+	c.Spell = alias
+	return &c
 }
 
 // funcRef spells a reference to a custom function of the converter package: by name, or with
@@ -1831,7 +1889,7 @@ func (b *Builder) fieldDefect() bool {
 		return false
 	}
 	switch b.defectKind {
-	case "ambiguous-case", "unknown-field", "ambiguous-automap", "ambiguous-method":
+	case "ambiguous-case", "unknown-field", "ambiguous-automap", "ambiguous-method", "map-promoted":
 		return true
 	}
 	return false
@@ -1931,7 +1989,11 @@ func (b *Builder) UpdateMethod(name string, depth int) *model.Method {
 	}
 	m.Source, m.Target = srcT, spec.Ptr(t)
 	sm := &spec.Method{Name: name, Doc: []string{"update target"}}
-	ps := []spec.Param{{Name: "source", T: srcT}, {Name: "target", T: spec.Ptr(t)}}
+	srcSpelled := b.spell(srcT)
+	if srcT.K == spec.KPtr {
+		srcSpelled = spec.Ptr(b.spell(srcT.Elem))
+	}
+	ps := []spec.Param{{Name: "source", T: srcSpelled}, {Name: "target", T: spec.Ptr(b.spell(t))}}
 	if b.coin("update-target-first") {
 		ps[0], ps[1] = ps[1], ps[0]
 		b.label("update:target-first")
